@@ -79,6 +79,9 @@ MUTANTS = {
         {"id": "success-without-performing", "file": FS, "old": "                false => FileStoreStatus::DenyFile(DenyStatus::NotAllowed),", "new": "                false => FileStoreStatus::DenyFile(DenyStatus::Successful),", "rule": "C13-Q1"},
         {"id": "crosswired-not-performed", "file": PFS, "old": "            FileStoreAction::DenyFile => Self::DenyFile(DenyStatus::NotPerformed),", "new": "            FileStoreAction::DenyFile => Self::DenyDirectory(DenyStatus::NotPerformed),", "rule": "C13-Q1"},
         {"id": "fail-rest-reset", "file": R, "old": "                        true => FileStoreResponse::not_performed(request),", "new": "                        true => {\n                            fail_rest = false;\n                            FileStoreResponse::not_performed(request)\n                        }", "rule": "C13-Q2"},
+        {"id": "requests-reversed", "file": R, "old": "                for request in &meta.filestore_requests {", "new": "                for request in meta.filestore_requests.iter().rev() {", "rule": "C13-Q2"},
+        {"id": "skipped-not-reported", "file": R, "old": "                    out.push(response);", "new": "                    if !fail_rest || response.action_and_status.is_fail() {\n                        out.push(response);\n                    }", "rule": "C13-Q2"},
+        {"id": "flag-not-sticky", "file": R, "old": "                            fail_rest = rep.action_and_status.is_fail();", "new": "                            fail_rest = rep.action_and_status.is_fail() && out.is_empty();", "rule": "C13-Q2"},
         {"id": "responses-taken", "file": R, "old": "                filestore_response: self.filestore_response.clone(),\n                fault_location,", "new": "                filestore_response: std::mem::take(&mut self.filestore_response),\n                fault_location,", "rule": "C13-Q3"},
     ],
     "C14": [
